@@ -228,6 +228,10 @@ func Close(a, b, rel, abs float64) bool {
 	return d <= abs || d <= rel*math.Max(math.Abs(a), math.Abs(b))
 }
 
+// Near is the tolerance test in every reading (used where native constants such as sqrt(2) enter a
+// real-reading identity and exact equality would compare the rounded constant with the exact one).
+func Near(a, b, rel, abs float64) bool { return Close(a, b, rel, abs) }
+
 // Leq is a <= b up to the tolerance natively (exact in the real reading).
 func Leq(a, b, rel, abs float64) bool {
 	return a <= b || Close(a, b, rel, abs)
